@@ -112,6 +112,9 @@ func c13Errors(c *core.Ctx) bool {
 }
 
 func (c13) RunCase(c *core.Ctx) {
+	if c.Case%97 == 23 && !w10(c, "C13") {
+		return
+	}
 	if c.Case%25 == 3 && !c13Errors(c) {
 		return
 	}
